@@ -946,6 +946,7 @@ type caseResult struct {
 	sc       *scenario
 	name     string
 	points   string
+	first    string // crash point of the first process
 	lines    []line
 	phaseEnd []string // "killed" | "clean" | "timeout" | "broken"
 	fin      *finalState
@@ -1016,6 +1017,7 @@ func runCase(sc *scenario, name string) *caseResult {
 		}
 	}
 	res.points = strings.Join(pts, "+")
+	res.first = pts[0]
 	fin, err := readFinal(dir, sc)
 	if err != nil {
 		res.broken = "reading the final state: " + err.Error()
@@ -1268,13 +1270,13 @@ func evaluate(r *ev.Run, c *caseResult) {
 				// retry loops may run on one shelf entry. Only "never vanished" is checked for these.
 				r.Unspecified("second-WritePayload-for-a-transaction")
 				if len(ds) == 0 && !onShelf {
-					viol("vanished/"+typ+"/"+c.points, fmt.Sprintf("%s event of admitted %s was never delivered to persistent subscriber %s and is not on its shelf", typ, ref, s.Name), ref, s.Name)
+					viol("vanished/"+typ+"/"+c.first, fmt.Sprintf("%s event of admitted %s was never delivered to persistent subscriber %s and is not on its shelf", typ, ref, s.Name), ref, s.Name)
 				}
 				continue
 			}
 			// (A) at least once, or still visible; never vanished
 			if len(ds) == 0 && !onShelf {
-				viol("vanished/"+typ+"/"+c.points, fmt.Sprintf("%s event of admitted %s was never delivered to persistent subscriber %s and is not on its shelf", typ, ref, s.Name), ref, s.Name)
+				viol("vanished/"+typ+"/"+c.first, fmt.Sprintf("%s event of admitted %s was never delivered to persistent subscriber %s and is not on its shelf", typ, ref, s.Name), ref, s.Name)
 				continue
 			}
 			if !onShelf && !anyOK {
